@@ -20,7 +20,7 @@ def frag_id_of_packet(a, v):
     if d[0] == 'be':
         return d[1] == buf[1] and d[2] == Lin.c(2) and d[3] == 1
     if d[0] == 'elem':
-        return d[1] == ('pointee', ('param', 'buffer')) and d[2] == Lin.c(2)
+        return isinstance(d[1], tuple) and d[1][0] == 'pointee' and d[1][1] == ('param', a.param_name('buffer')) and d[2] == Lin.c(2)
     return False
 
 
